@@ -125,7 +125,7 @@ func i3DNSLine(r *rng, names []string) string {
 // i3Build assembles 1–3 lists from a line generator (contents, ids, line ends as in i1Build).
 func i3Build(r *rng, names []string, line func(*rng, []string) string) *i1Scenario {
 	nLists := 1 + r.n(3)
-	nLines := 4 + r.n(12)
+	nLines := 6 + r.n(12)
 	if r.chance(1, 6) {
 		nLines = 1 + r.n(30)
 	}
@@ -215,7 +215,7 @@ func i3Text(f *rules.NetworkRule) string {
 }
 
 func i3URL(r *rng, names []string, sc *i1Scenario) string {
-	switch r.n(16) {
+	switch r.n(24) {
 	case 0:
 		if len(sc.texts) > 0 {
 			return genURL(r, sc.texts)
